@@ -63,6 +63,8 @@ class Shard:
     def run(self, cfg, lines, timeout=None, env=None):
         """run lines through driver `cfg`; returns list of token lists (None where the driver died).
         Crashes / sanitizer reports become violations keyed by what failed."""
+        if not lines:
+            return []
         exe, args = self.exes[cfg]
         timeout = timeout or (300 if self.quick else 1200)
         rc, out, err = run_driver(exe, '\n'.join(lines) + '\n', args=args, timeout=timeout, env=env)
